@@ -222,6 +222,11 @@ func (m *Machine) Load(it *Item, p Ptr, t types.Type) Value {
 			panic(fmt.Sprintf("load out of object bounds: %v off %d n %d type %v", a.Obj, a.Off, n, t))
 		}
 		pos := a.Off
+		if m.race != nil {
+			for j := 0; j < n; j++ {
+				m.raceAccess(it, a.Obj, a.Off+j, m.C.And(it.G, a.G), false)
+			}
+		}
 		v := unflatten(t, func(j int) Value { return m.heap.Get(a.Obj, j) }, &pos)
 		if res == nil {
 			res = v
@@ -247,6 +252,9 @@ func (m *Machine) Store(it *Item, p Ptr, t types.Type, v Value) {
 			continue
 		}
 		for j, nv := range cells {
+			if m.race != nil {
+				m.raceAccess(it, a.Obj, a.Off+j, g, true)
+			}
 			old := m.heap.Get(a.Obj, a.Off+j)
 			m.heap.Set(a.Obj, a.Off+j, m.Merge(g, nv, old))
 		}
